@@ -4,6 +4,7 @@ import os
 
 from common import *  # noqa
 import resgen
+import wgslgen as W
 
 ID = "C02"
 REQUIRES = ["Agree", "C02Spec", "C02Proof"]
@@ -35,6 +36,11 @@ def cases(rng, tier):
     for i in range(n):
         p = resgen.program(rng, allow_int_gather=(i % 10 == 0))
         out.append({"wgsl": p["wgsl"], "family": "resources", "opts": {"encase": True}, "tags": p["tags"]})
+    # call-graph shapes that expose stale analysis caches shared between entry points (visibility too small for a later stage)
+    for i in range(n // 10):
+        out.append({"wgsl": W.diamond_program(rng, "global").render(), "family": "diamond_across_stages", "opts": {}, "tags": []})
+        if i % 2 == 0:
+            out.append({"wgsl": W.random_program(rng).render(), "family": "call_graph", "opts": {}, "tags": []})
     return out
 
 
